@@ -32,7 +32,7 @@ def fn_returns_validated_digits(E, npath, seen=None):
     h = E.hir(npath)
     if not h:
         return False
-    t = tail(h["body"])
+    t = fn_result(h)
     if t.get("k") == "Call" and norm(t.get("callee", "")) == "lex::take_while":
         return closure_is_digit_pred(closure_of(t["args"][2]))
     return False
